@@ -58,6 +58,7 @@ type state struct {
 	h        map[string]string
 	epoch    int
 	havocked string // SMT Bool: a havoc-everything happened on the path to here
+	param    *[]string // non-nil: heap reads become parameters of a recursive spec function
 }
 
 func (s *state) clone() *state {
@@ -135,6 +136,14 @@ type FnVC struct {
 	safety   bool
 	relyDef  *SpecDef
 	obNames  map[string]int
+	recs     map[string]*recInfo
+}
+
+type recInfo struct {
+	name string
+	keys []string
+	rty  types.Type
+	done bool
 }
 
 type frame struct {
@@ -153,6 +162,8 @@ type frame struct {
 	prefix  string
 	oldSt   *state
 	rangeSt map[*ssa.Range]*rangeRec
+	callPos map[string][]token.Pos
+	curOrd  int
 }
 
 type rangeRec struct {
@@ -371,6 +382,18 @@ func (vc *FnVC) regHeap(key, sort string) string {
 }
 
 func (vc *FnVC) hget(st *state, key string) string {
+	if st.param != nil {
+		found := false
+		for _, k := range *st.param {
+			if k == key {
+				found = true
+			}
+		}
+		if !found {
+			*st.param = append(*st.param, key)
+		}
+		return "hp_" + mangle(key)
+	}
 	if t, ok := st.h[key]; ok {
 		return t
 	}
@@ -863,6 +886,8 @@ func (w *World) verifyFunction(fn *ssa.Function, c *Contract) (vc *FnVC, err err
 		}
 		vc.frameObligations(f, exitReach, entry, exitSt, c.Modifies, "frame", c.Props, true)
 	}
+	cov := vc.oblige("cover", "exit", "true", exitReach, fn.Pos(), "the exit of the function is reachable under its preconditions and the assumed callee contracts", c.Props)
+	cov.Trivial = false
 	// site expectations
 	for _, ex := range c.Expect {
 		n := vc.callsSeen[ex.Callee]
@@ -1176,6 +1201,10 @@ func (f *frame) scanLoopMods(li *loopInfo) {
 				f.scanCallMods(li, x)
 			case *ssa.RunDefers:
 				li.modAll = true
+			case *ssa.Next:
+				if rg, ok := x.Iter.(*ssa.Range); ok && !x.IsString {
+					li.modKeys[f.visKey(rg)] = true
+				}
 			case *ssa.Select, *ssa.Send:
 			}
 		}
